@@ -12,3 +12,6 @@ import EmuVerif.Props.C33
 #print axioms EmuVerif.Props.C33.dmrg_refuses_noise_seq
 #print axioms EmuVerif.Props.C33.dmrg_refuses_noise
 #print axioms EmuVerif.Props.C33.dmrg_noise_asFound_counterexample
+#print axioms EmuVerif.Props.C33.dmrg_refuses_effective_noise_partial
+#print axioms EmuVerif.Props.C33.dmrg_device_noise_counterexample
+#print axioms EmuVerif.Props.C33.dmrg_refuses_effective_noise_fixed
